@@ -6,6 +6,7 @@
      digit or '.' is rejected.
   §4 url.URL.Hostname on the well-formed authority shapes (`host:port`, `[v6]:port`, no port).
   §5 a certificate that does not verify for the origin's name: 502, nothing delivered.
+  §6 histories on one proxy instance: steps that leave the transport's TLS configuration alone.
   §3 validity window arithmetic; what is ASSUMED of x509 verification (`FreshVerifies`, a hypothesis
      of the theorems — never an axiom) and the certificate served for every cache state / history.
 -/
@@ -425,6 +426,63 @@ theorem interceptedTo_refused {vf : Verifier} {c : Cert} {a : Bytes} {now : Int}
     interceptedTo vf [] allowHTTP false c a now = .refused502 ∧
       (interceptedTo vf [] allowHTTP false c a now).delivered = false := by
   unfold interceptedTo
+  rw [h]
+  cases allowHTTP <;> decide
+
+/-! ## §6 histories on one proxy instance -/
+
+theorem tunnelStep_cloned (up : Upstream) (st : Inst) : tunnelStep .cloned up st = st := by
+  cases up <;> rfl
+
+theorem tunnelStep_not_https (h : ConfHandling) {up : Upstream} (hup : ∀ p, up ≠ .https p)
+    (st : Inst) : tunnelStep h up st = st := by
+  cases up with
+  | https p => exact absurd rfl (hup p)
+  | _ => rfl
+
+theorem evStep_cloned_state (up : Upstream) (vf : Verifier) (a i : Bool) (st : Inst) (e : Event) :
+    (evStep .cloned up vf a i st e).1 = st := by
+  cases e <;> simp [evStep, tunnelStep_cloned]
+
+theorem verifyName_fresh (authority : Bytes) :
+    verifyName Inst.fresh authority = originVerifyName authority := by
+  simp [verifyName, Inst.fresh]
+
+/-- on an instance whose transport configuration has no `ServerName`, every variant gives every
+    event the history-free verdict -/
+theorem evStep_fresh_out (h : ConfHandling) (up : Upstream) (vf : Verifier) (a i : Bool) (e : Event) :
+    (evStep h up vf a i Inst.fresh e).2 = specOut vf a i e := by
+  cases e <;> simp [evStep, specOut, verifyName_fresh, interceptedAs, interceptedTo, originVerifies]
+
+theorem runHist_of_state_fixed (h : ConfHandling) (up : Upstream) (vf : Verifier) (a i : Bool)
+    (st : Inst) :
+    ∀ evs : List Event, (∀ e ∈ evs, (evStep h up vf a i st e).1 = st) →
+      runHist h up vf a i st evs = evs.map (fun e => (evStep h up vf a i st e).2) := by
+  intro evs
+  induction evs with
+  | nil => intro _; rfl
+  | cons e es ih =>
+    intro hfix
+    have he := hfix e (by simp)
+    simp only [runHist, List.map_cons, he]
+    rw [ih (fun e' he' => hfix e' (by simp [he']))]
+
+theorem histState_of_state_fixed (h : ConfHandling) (up : Upstream) (vf : Verifier) (a i : Bool)
+    (st : Inst) :
+    ∀ evs : List Event, (∀ e ∈ evs, (evStep h up vf a i st e).1 = st) →
+      histState h up vf a i st evs = st := by
+  intro evs
+  induction evs with
+  | nil => intro _; rfl
+  | cons e es ih =>
+    intro hfix
+    have he := hfix e (by simp)
+    simp only [histState, he]
+    exact ih (fun e' he' => hfix e' (by simp [he']))
+
+theorem absoluteAs_refused {vf : Verifier} {c : Cert} {n : Bytes} {now : Int} (allowHTTP : Bool)
+    (h : vf c n now = false) : absoluteAs vf allowHTTP false c n now = .refused502 := by
+  unfold absoluteAs
   rw [h]
   cases allowHTTP <;> decide
 
